@@ -26,10 +26,12 @@ through the precision -/
 def cbrtK {α : Type} (p : Nat) (x : Dec) (kerr : ErrKind → α) (k : Dec → Cond → α) : Option α :=
   match scaleLoop (fun z => z.cmp decOneEighth < 0) decEight 400000 { c := ncOf p } x.absD 0 with
   | none => none
-  | some (ed, z, down) =>
+  | some (.inl er) => some (kerr er)
+  | some (.inr (ed, z, down)) =>
   match scaleLoop (fun z => z.cmp decOne > 0) decOneEighth 400000 ed z 0 with
   | none => none
-  | some (ed, z, up) =>
+  | some (.inl er) => some (kerr er)
+  | some (.inr (ed, z, up)) =>
     match cbrtIter (ncOf p) ((p : Int) + 1) (10 + (p + 1)) x.absD (10 + (p + 1) + 2)
         (cbrtPoly ed z down up).1 (cbrtPoly ed z down up).2 {} with
     | none => none
@@ -61,12 +63,18 @@ theorem cbrtOp_eq (c : Ctx) (x : Dec) :
     cases A with
     | none => rfl
     | some v =>
+      cases v with
+      | inl er => rfl
+      | inr v =>
       obtain ⟨ed, z, down⟩ := v
       dsimp only
       generalize scaleLoop (fun z => decide (z.cmp decOne > 0)) decOneEighth 400000 _ _ 0 = B
       cases B with
       | none => rfl
       | some v =>
+        cases v with
+        | inl er => rfl
+        | inr v =>
         obtain ⟨ed, z, up⟩ := v
         dsimp only
         generalize cbrtIter _ _ _ _ _ _ _ _ = C
@@ -84,7 +92,9 @@ theorem cbrtK_map {α β : Type} (f : α → β) (p : Nat) (x : Dec) (kerr : Err
   unfold cbrtK
   split
   · rfl
+  · rfl
   · split
+    · rfl
     · rfl
     · split <;> rfl
 
@@ -151,7 +161,7 @@ theorem rootSpecials3_none (c : Ctx) (x : Dec) (hx : x.form = .finite) (h0 : x.c
   cases hn : x.neg <;> simp [rootSpecials, shouldSetAsNaN, Dec.isNaN, hx, Dec.sign, h0, hn, h3]
 
 theorem scaleLoop_c (test : Dec → Bool) (k : Dec) : ∀ (fuel : Nat) (e : ED) (z : Dec) (n : Nat) (r : ED × Dec × Nat),
-    scaleLoop test k fuel e z n = some r → r.1.c = e.c := by
+    scaleLoop test k fuel e z n = some (.inr r) → r.1.c = e.c := by
   intro fuel
   induction fuel with
   | zero => intro e z n r h; simp [scaleLoop] at h
@@ -159,8 +169,9 @@ theorem scaleLoop_c (test : Dec → Bool) (k : Dec) : ∀ (fuel : Nat) (e : ED) 
     intro e z n r h
     simp only [scaleLoop] at h
     split_ifs at h
+    · cases h
     · rw [ih _ _ _ _ h, step_c]
-    · injection h with h; subst h; rfl
+    · injection h with h; injection h with h; subst h; rfl
 
 theorem mulN_c (k : Dec) : ∀ (n : Nat) (e : ED) (z : Dec), (mulN k n e z).1.c = e.c := by
   intro n
@@ -371,10 +382,12 @@ theorem cbrtK_some {α : Type} (p : Nat) (x : Dec) (kerr : ErrKind → α) (k : 
   unfold cbrtK at h
   split at h
   · cases h
+  · injection h with h; exact Or.inl ⟨_, h.symm⟩
   · rename_i ed1 z1 down h1
     have c1 : ed1.c = ncOf p := scaleLoop_c _ _ _ _ _ _ _ h1
     split at h
     · cases h
+    · injection h with h; exact Or.inl ⟨_, h.symm⟩
     · rename_i ed2 z2 up h2
       have c2 : ed2.c = ncOf p := by rw [← c1]; exact scaleLoop_c _ _ _ _ _ _ _ h2
       split at h
